@@ -147,12 +147,17 @@ func (r *recorder) snapshot() []Ev {
 	return append([]Ev{}, r.evs...)
 }
 
-// wait until no further event arrives (ftp and smtp hand their lines to a pump goroutine)
-func (r *recorder) settle() {
+// ftp and smtp hand every line to a pump goroutine that sends the event some time after
+// Handle has moved on: wait until no further event has arrived for 6 ms (all other
+// services send from the goroutine that runs Handle - nothing to wait for)
+func (r *recorder) settle(svc string) {
+	if svc != "ftp" && svc != "smtp" {
+		return
+	}
 	last, stable := r.count(), 0
-	for i := 0; i < 2000 && stable < 4; i++ {
+	for i := 0; i < 4000 && stable < 20; i++ {
 		runtime.Gosched()
-		time.Sleep(150 * time.Microsecond)
+		time.Sleep(300 * time.Microsecond)
 		if n := r.count(); n == last {
 			stable++
 		} else {
@@ -301,7 +306,7 @@ func runTCP(in Input) (Obs, string) {
 			return Obs{Events: rec.snapshot()}, "Handle did not return 5 s after the client closed the connection"
 		}
 	}
-	rec.settle()
+	rec.settle(in.Svc)
 	return Obs{Events: rec.snapshot(), Code: result.code, Panic: result.msg}, ""
 }
 
@@ -344,7 +349,7 @@ func runUDP(in Input) (Obs, string) {
 	}()
 	select {
 	case f := <-done:
-		rec.settle()
+		rec.settle(in.Svc)
 		all := rec.snapshot()
 		return Obs{Events: all[before:], Code: f.code, Panic: f.msg}, ""
 	case <-time.After(5 * time.Second):
